@@ -46,6 +46,14 @@ func iJSONUnmarshal(in *Interp, fn *ssa.Function, a []Value) Value {
 }
 
 func (in *Interp) jsonUnmarshal(data Slice, tgt Iface) Value {
+	r := in.jsonUnmarshal1(data, tgt)
+	if !isNilValue(r) {
+		pGhostLog(in, nil, []Value{mkStr("json.decode.failed")})
+	}
+	return r
+}
+
+func (in *Interp) jsonUnmarshal1(data Slice, tgt Iface) Value {
 	pt, ok := tgt.T.(*types.Pointer)
 	if !ok {
 		return in.makeErrorString(mkStr("json: Unmarshal(non-pointer)"))
@@ -111,7 +119,7 @@ func iJSONDecode(in *Interp, fn *ssa.Function, a []Value) Value {
 	r := dec.Fields["r"].(Iface)
 	tgt := a[1].(Iface)
 	if r.T != nil {
-		if m := in.L.prog.LookupMethod(r.T, nil, "verifDoc"); m != nil {
+		if m := in.L.prog.LookupMethod(r.T, nil, "VerifDoc"); m != nil {
 			doc := in.call(m, []Value{r.V}).(Slice)
 			return in.jsonUnmarshal(doc, tgt)
 		}
